@@ -274,22 +274,25 @@ def error_laws(ctx, rng, N):
     fa = lib_call(ctx, "derive", "se23_attitude_control", lambda: ll.derive_outerloop_control()["se23_attitude_control"], not_implemented_ok=False)
     if fe is not None and fa is not None:
         M = min(N, 4000)
+        # (the first N//4 pairs are the same-rotation cases: take an eighth of those and fill up from the general pairs --
+        #  the first version took the first M pairs and so only ever saw identical attitudes here)
+        sel = np.r_[0:M // 8, N - (M - M // 8):N]
         s = [ca.SX.sym(n_, k_) for n_, k_ in (("p", 3), ("v", 3), ("q", 4), ("pr", 3), ("vr", 3), ("qr", 4), ("kp", 3))]
         zeta = fe(*s[:6])
         ev = Ev("se23law", s, [zeta, fa(s[6], zeta)])
         p, v, pr_, vr = [rng.normal(size=(M, 3)) * 2 for _ in range(4)]
-        (z, u), _ = ev(p, v, q[:M], pr_, vr, qr[:M], kp[:M])
+        (z, u), _ = ev(p, v, q[sel], pr_, vr, qr[sel], kp[sel])
         z, u = z[:, :, 0], u[:, :, 0]
-        inp = {"q": q[:M], "q_r": qr[:M], "p": p, "p_r": pr_}
-        sm = same[:M]
+        inp = {"q": q[sel], "q_r": qr[sel], "p": p, "p_r": pr_}
+        sm = same[sel]
         ctx.check_array("zero_at_same_rotation", "se23_attitude_control", np.where(np.isfinite(u).all(axis=1), np.abs(u).max(axis=1), np.inf)[sm], 1e-9, {k_: v_[sm] for k_, v_ in inp.items()})
-        ctx.check_array("error_rotation_part_is_rotation_vector", "se23_error", np.abs(z[:, 6:] - e_true[:M]).max(axis=1), 1e-9 * np.maximum(1, 1 / np.maximum(np.sin(th[:M]), 2e-2)), inp)
-        law = np.einsum("nij,nj->ni", O.so3_left_jac(e_true[:M]), kp[:M] * e_true[:M])
-        ctx.check_array("gain_scales_error_through_left_jacobian", "se23_attitude_control", np.abs(u - law).max(axis=1), 1e-8 * np.maximum(1, 1 / np.maximum(np.sin(th[:M]), 2e-2)), inp)
-        (z1, u1), _ = ev(p, v, q[:M], pr_, vr, qr[:M], ones[:M])
+        ctx.check_array("error_rotation_part_is_rotation_vector", "se23_error", np.abs(z[:, 6:] - e_true[sel]).max(axis=1), 1e-9 * np.maximum(1, 1 / np.maximum(np.sin(th[sel]), 2e-2)), inp)
+        law = np.einsum("nij,nj->ni", O.so3_left_jac(e_true[sel]), kp[sel] * e_true[sel])
+        ctx.check_array("gain_scales_error_through_left_jacobian", "se23_attitude_control", np.abs(u - law).max(axis=1), 1e-8 * np.maximum(1, 1 / np.maximum(np.sin(th[sel]), 2e-2)), inp)
+        (z1, u1), _ = ev(p, v, q[sel], pr_, vr, qr[sel], ones[sel])
         u1 = u1[:, :, 0]
-        reach = np.abs(O.quat_to_R(q[:M]) @ O.rodrigues(u1) - O.quat_to_R(qr[:M])).max(axis=(1, 2))
+        reach = np.abs(O.quat_to_R(q[sel]) @ O.rodrigues(u1) - O.quat_to_R(qr[sel])).max(axis=(1, 2))
         ctx.check_array("unit_gain_reaches_reference", "se23_attitude_control", np.where(np.isfinite(u1).all(axis=1), reach, np.inf), 1e-9, inp)
         # position/velocity parts of the error vanish when pose and reference coincide
-        (z0, _u0), _ = ev(p, v, q[:M], p, v, q[:M] * rng.choice([-1.0, 1.0], (M, 1)), ones[:M])
-        ctx.check_array("zero_error_at_identical_state", "se23_error", np.abs(z0[:, :, 0]).max(axis=1), 1e-9, {"q": q[:M], "p": p, "v": v})
+        (z0, _u0), _ = ev(p, v, q[sel], p, v, q[sel] * rng.choice([-1.0, 1.0], (M, 1)), ones[sel])
+        ctx.check_array("zero_error_at_identical_state", "se23_error", np.abs(z0[:, :, 0]).max(axis=1), 1e-9, {"q": q[sel], "p": p, "v": v})
